@@ -15,7 +15,7 @@ RULE = ("groups of 1-4 generated journal files in random unformatted layouts (co
         "generated (training file, target file with placeholder accounts) pairs as the C15 generator makes them (a few "
         "unparseable or empty, every fourth target its own training file, every third target reached through a symbolic "
         "link): the expected new contents are the stdout of the same command without --inplace, run beforehand on the same "
-        "files; one strace run and RLIMIT_FSIZE runs at 0, 1 and random offsets per pair (thorough: every byte offset of 50 "
+        "files; one strace run and RLIMIT_FSIZE runs at 0, 1 and random offsets per pair (thorough: every byte offset of 25 short "
         "targets); the training file must stay as it is and no operation may touch it.  After every run each file is "
         "classified old | new | other against the "
         "input bytes and the expected new bytes (format: computed in-process with syntax.ParseFile + syntax.FormatFile), "
